@@ -40,7 +40,7 @@ type Prop struct{}
 func (Prop) ID() string    { return "C05" }
 func (Prop) Level() string { return "fault_enumeration" }
 func (Prop) Rule() string {
-	return "a case is one write operation over a seeded record graph; it is run fault-free to list its fault sites (each driver BEGIN/statement/COMMIT/Prepare x {error, error-after-apply, ErrBadConn x burst, lost COMMIT ack}, each delivered row x iterator error, each hook invocation x error, each call into the connection pool x cancellation of the operation's context just before it; per case the injected errors are plain or wrap one well-known error: context.DeadlineExceeded, context.Canceled, sql.ErrTxDone, io.ErrUnexpectedEOF) and re-run on a fresh database once per site (quick: a seeded sample of sites). An evaluation is one simulated run; it is non-trivial when its fault fired; distinct = distinct hash of (driver event sequence, hook sequence, outcome)"
+	return "a case is one write operation over a seeded record graph; it is run fault-free to list its fault sites (each driver BEGIN/statement/COMMIT/Prepare x {error, error-after-apply, ErrBadConn x burst, lost COMMIT ack}, each delivered row x iterator error, each hook invocation x {error, panic recovered by the caller}, each call into the connection pool x cancellation of the operation's context just before it; per case the injected errors are plain or wrap one well-known error: context.DeadlineExceeded, context.Canceled, sql.ErrTxDone, io.ErrUnexpectedEOF) and re-run on a fresh database once per site (quick: a seeded sample of sites). An evaluation is one simulated run; it is non-trivial when its fault fired; distinct = distinct hash of (driver event sequence, hook sequence, outcome)"
 }
 func (Prop) Assumptions() []string {
 	return []string{
@@ -242,6 +242,7 @@ func (p Prop) Run(ci interface{}, focus *core.Violation) *core.Outcome {
 	} else {
 		id := 0
 		faults = append(ops.DriverSites(base.Events, &id), ops.HookSites(base.Hooks, &id)...)
+		faults = append(faults, ops.HookPanicSites(base.Hooks, &id)...) // the hook panics and the caller recovers
 		// cancellation sites: one per pool call of a fault-free run from a context-bound handle
 		probe, points, err := p.execCtx(c, nil)
 		if err != nil {
@@ -295,6 +296,9 @@ func (p Prop) Run(ci interface{}, focus *core.Violation) *core.Outcome {
 		out.Runs++
 		fired := f.Fired(sr)
 		kind := "hook_err"
+		if f.Hook != nil && f.Hook.Panic {
+			kind = "hook_panic"
+		}
 		if f.Drv != nil {
 			kind = f.Drv.Kind + "_" + f.Drv.Type
 		} else if f.Cancel != nil {
@@ -347,6 +351,10 @@ func (p Prop) Run(ci interface{}, focus *core.Violation) *core.Outcome {
 		default:
 			out.Count("delivered:"+kind, 1)
 			carried := strings.Contains(e.Error(), f.Marker())
+			if f.Hook != nil && f.Hook.Panic {
+				// the hook's panic must reach the caller with its own value
+				carried = sr.Panicked != nil && sr.Panicked.ID == f.Hook.ID
+			}
 			if f.Cancel != nil && errors.Is(e, sql.ErrTxDone) {
 				// database/sql's watcher rolled the cancelled transaction back before COMMIT/ROLLBACK was called
 				carried = true
